@@ -345,6 +345,36 @@ func c16Run(c *core.Ctx) {
 			c.SetMax("nesting_depth_completed", 5)
 		}
 	}
+	// (1c) deep chains: the same constructor (and alternating pairs) nested 5, 9, 17 and 33 deep
+	{
+		ns := gen.Nesters(true)
+		depths := []int{5, 9, 17}
+		if c.Thorough() {
+			depths = append(depths, 33, 65)
+		}
+		for _, d := range depths {
+			for i := range ns {
+				for j := range ns {
+					if j != i && j != (i+1)%len(ns) {
+						continue
+					}
+					if !c.Next() || c.Tick() {
+						continue
+					}
+					body := []*gen.Node{gen.Ex(gen.Ca(gen.I("f"), gen.I("b")))}
+					for l := 0; l < d; l++ {
+						n := ns[i]
+						if l%2 == 1 {
+							n = ns[j]
+						}
+						body = []*gen.Node{gen.Ex(gen.I("u")), n.Wrap(body), gen.Ex(gen.Ca(gen.I("v")))}
+					}
+					c.Inc("deep_chain_programs")
+					runProg(body, fmt.Sprintf("deep:%d:%s/%s", d, ns[i].Name, ns[j].Name), 0)
+				}
+			}
+		}
+	}
 	// (2) statement families (brace-less bodies, function expressions in every position)
 	level := 1
 	if c.Thorough() {
